@@ -36,7 +36,29 @@ Definition mx_ref_decode (s : schema) (idx : nat) (data : bytes) (m0 : val) : op
 
 Definition mx_wf_input (s : schema) (idx : nat) (data : bytes) : bool := wf_input s idx data.
 
+(* S-writers / S-readers entry points *)
+Definition mx_writer (k : kind) (always rep : bool) (num : Z) (vs : list val) : result bytes :=
+  if rep then enc_repeated k always num vs []
+  else Ok (enc_single k always num (match vs with v :: _ => v | [] => VInt 0 end) []).
+
+Definition mx_reader (k : kind) (rep : bool) (field : Z) (data : bytes) (init : list val) :=
+  let st0 := next_field 0 {| pf := 0; pw := 0; buf := data; err := None |} in
+  if rep then
+    let '(st, vs) := dec_repeated (S (length data)) k field st0 init in
+    (pf st, pw st, Z.of_nat (length (buf st)), err st, vs)
+  else
+    let '(st, v) := dec_single k field st0 (match init with v :: _ => v | [] => VInt 0 end) in
+    (pf st, pw st, Z.of_nat (length (buf st)), err st, [v]).
+
+(* picoconv on (seconds, nanos) *)
+Definition mx_dur_join := dur_join.
+Definition mx_dur_split := dur_split.
+Definition mx_time_unix := time_unix.
+Definition mx_enc_duration (d : Z) := enc_duration 1 d [].
+Definition mx_enc_timestamp (sec nsec : Z) := enc_timestamp 1 sec nsec [].
+
 Extraction "model.ml"
+  mx_writer mx_reader mx_dur_join mx_dur_split mx_time_unix mx_enc_duration mx_enc_timestamp
   Z.add Z.mul Z.sub Z.opp Z.of_nat Z.to_nat Z.div_eucl Z.eqb Z.ltb Z.compare
   mx_bitset_run mx_fn_string
   mx_gen_all mx_marshal mx_unmarshal mx_zero mx_norm mx_ref_encode mx_ref_decode mx_wf_input
